@@ -38,6 +38,10 @@ def drive(sc):
         vlb, vub = [-1.0, -INF, -INF], [INF, 5.0, 2.0]
     else:
         vlb, vub = [-1.0, -INF, -INF], [3.0, 5.0, 2.0]
+    if sc["mask"] != "none" and (len(sc["nl"]) + len(sc["lin"])) % 2 == 0 and method not in ("cobyla", "differential_evolution"):
+        # finite bounds on FREE variables only: the fixed ones are unbounded
+        for k in ((1, 2) if sc["mask"] == "fix23" else (1,)):
+            vlb[k], vub[k] = -INF, INF
     cfg = {"variables": {"initial_values": [0.0, 1.0, 0.0], "lower_bounds": vlb, "upper_bounds": vub},
            # (the method name is case-insensitive: every second scenario spells it in capitals)
            "optimizer": {"method": "rvscipy/" + (method.upper() if (sc["maxit"] > 0 and sc["options"] == "dict") or ((len(sc["nl"]) + len(sc["lin"])) % 2 == 1 and not sc["maxit"]) else method)},
@@ -149,20 +153,22 @@ def drive(sc):
     if outcome == "exc:NotImplementedError":
         outcome = "rejected"
     e["outcome"] = outcome
-    e["jacseq"] = jacobian_sequence(sc["nl"][0], method) if method == "slsqp" and nnl and sc["nl"][0] != "none" else []
+    e["jacseq"] = jacobian_sequence(sc["nl"][0], method, with_linear=bool(nlin)) if method == "slsqp" and nnl and sc["nl"][0] != "none" else []
     kinds = set(sc["nl"]) | set(sc["lin"])
     feats = {"nontrivial": bool(len(kinds - {"none"}) >= 2 or (masked and any(k != "none" for k in sc["lin"][:2]))),
              "key": str(sc), "method": method, "options": sc["options"], "maxit": sc["maxit"], "rejected": outcome == "rejected"}
     return [e], feats
 
 
-def jacobian_sequence(kind, method):
+def jacobian_sequence(kind, method, with_linear=False):
     """Constraint Jacobians requested at three points in a row (no value request in between), for a QUADRATIC constraint of the
     given bound kind: each must be the derivative at the point it was requested for (compared with central differences of the
     very same handed-over function, which are exact for a quadratic; tolerance for the stochastic estimate)."""
     cfg = {"variables": {"initial_values": [0.0, 1.0, 0.0]}, "optimizer": {"method": "rvscipy/" + method},
            "gradient": {"number_of_perturbations": 6, "perturbation_magnitudes": 0.001},
            "nonlinear_constraints": {"lower_bounds": [KB[kind][0]], "upper_bounds": [KB[kind][1]]}}
+    if with_linear:        # a linear row next to the quadratic constraint (its Jacobian is constant, the quadratic one's is not)
+        cfg["linear_constraints"] = {"coefficients": [[1.0, 0.0, 1.0]], "lower_bounds": [-INF], "upper_bounds": [2.0]}
 
     def evaluator(variables, context):
         return EvaluatorResult(objectives=variables.sum(axis=1, keepdims=True),
